@@ -68,7 +68,7 @@ def filter_separable(
         idx[d], idx[-1] = idx[-1], idx[d]
         x = x.permute(idx)
         # flatten first to allow for circular, replicate and reflection padding for arbitrary tensor size
-        x_flat = x.flatten(end_dim=-2)
+        x_flat = x.reshape(-1, x.shape[-1])  # (also for 1D tensors, for which flatten(end_dim=-2) raises)
         if padding_conv == 'valid' and pad_mode != 'none':
             left_pad = (len(kernel) - 1) // 2
             right_pad = (len(kernel) - 1) - left_pad
